@@ -516,3 +516,82 @@ pub fn in_ty(v: &Variable, i: Ty) -> bool {
         _ => panic!("bad descriptor"),
     }
 }
+
+/// Deep membership of a value in a *real* `Type` (reference semantics, written independently of
+/// `Type::matches`): used to judge results against the static type an instruction reports.
+pub fn in_type(v: &Variable, t: &Type) -> bool {
+    match t {
+        Type::Any => true,
+        Type::Never => false,
+        Type::Bool => matches!(v, Variable::Bool(_)),
+        Type::Int => matches!(v, Variable::Int(_)),
+        Type::Float => matches!(v, Variable::Float(_)),
+        Type::String => matches!(v, Variable::String(_)),
+        Type::Void => matches!(v, Variable::Void),
+        Type::Array(e) => match v {
+            Variable::Array(a) => {
+                let mut j = 0;
+                while j < a.len() {
+                    if !in_type(&a[j], e) {
+                        return false;
+                    }
+                    j += 1;
+                }
+                true
+            }
+            _ => false,
+        },
+        Type::Tuple(ts) => match v {
+            Variable::Tuple(xs) => {
+                if xs.len() != ts.len() {
+                    return false;
+                }
+                let mut j = 0;
+                while j < ts.len() {
+                    if !in_type(&xs[j], &ts[j]) {
+                        return false;
+                    }
+                    j += 1;
+                }
+                true
+            }
+            _ => false,
+        },
+        Type::Multi(m) => {
+            for member in m.iter() {
+                if in_type(v, member) {
+                    return true;
+                }
+            }
+            false
+        }
+        Type::Mut(e) => match v {
+            Variable::Mut(c) => c.var_type.matches(e) && e.matches(&c.var_type) && in_type(&c.variable.read().unwrap(), e),
+            _ => false,
+        },
+        Type::Struct(st) => match v {
+            Variable::Struct(m) => {
+                for (k, ft) in st.0.iter() {
+                    match m.get(&**k) {
+                        Some(x) => {
+                            if !in_type(x, ft) {
+                                return false;
+                            }
+                        }
+                        None => return false,
+                    }
+                }
+                true
+            }
+            _ => false,
+        },
+        Type::Function(_) => match v {
+            Variable::Function(f) => f.as_type().matches(t),
+            _ => false,
+        },
+    }
+}
+/// result judged both ways the property names: by contents and by the runtime type tag
+pub fn sound(v: &Variable, t: &Type) -> bool {
+    in_type(v, t) && v.as_type().matches(t)
+}
